@@ -104,6 +104,7 @@ type Obligation struct {
 	StructMsg  string
 	Observe  [][2]string // name, term
 	consistencyOnly bool // Text() emits only the assumptions (vacuity guard)
+	reachOnly       bool // ... plus the path guard (reachability)
 	ObservePrefix int
 }
 
@@ -164,6 +165,7 @@ type Exec struct {
 	clauseHit  map[*Clause]bool
 	pointeesOnly bool
 	heapInvDone  map[string]bool
+	holds        map[string][]string // allocation -> allocations stored into it
 }
 
 type callRec struct {
@@ -1429,19 +1431,39 @@ func (e *Exec) escape(v Val) {
 	if len(v.Allocs) == 0 {
 		return
 	}
+	// publishing an object publishes every still-private object stored in it (transitively)
+	esc := map[string]bool{}
+	var add func(a string)
+	add = func(a string) {
+		if esc[a] {
+			return
+		}
+		esc[a] = true
+		for _, h := range e.holds[a] {
+			add(h)
+		}
+	}
+	for _, a := range v.Allocs {
+		add(a)
+	}
 	var keep []*privRef
 	for _, p := range e.priv {
-		esc := false
-		for _, a := range v.Allocs {
-			if a == p.ref {
-				esc = true
-			}
-		}
-		if !esc {
+		if !esc[p.ref] {
 			keep = append(keep, p)
 		}
 	}
 	e.priv = keep
+}
+
+// noteHeld: a value carrying allocations was stored into the object ref (an allocation of this function).
+func (e *Exec) noteHeld(ref string, v Val) {
+	if len(v.Allocs) == 0 || !isAllocRef(ref) {
+		return
+	}
+	if e.holds == nil {
+		e.holds = map[string][]string{}
+	}
+	e.holds[ref] = append(e.holds[ref], v.Allocs...)
 }
 
 // callResult returns the model value of the k-th (1-based) result-producing call to key.
